@@ -16,7 +16,83 @@ NOT_APPLICABLE = {
 for _p in ('C01','C02','C03','C04','C05','C06','C07','C08','C09','C10','C11','C12','C14','C15','C16','C19'):
     NOT_APPLICABLE[_p] = 'check under construction in this session (see DESIGN.md section 3 for the planned contracts); not claimed until its obligations are discharged by bin/check'
 
+import re as _re
+
+
+def _pkt_harness_names():
+    import sys, os
+    sys.path.insert(0, os.path.join(os.path.dirname(os.path.dirname(os.path.abspath(__file__))), 'specs'))
+    from rfc_fields import VIEWS
+    fields, nopanic = [], []
+    for v in VIEWS:
+        fam = v['crate_mod'].split('::')[0]
+        pre = {'icmpv4': 'icmp4_', 'icmpv6': 'icmp6_'}.get(fam, '')
+        for f in v['fields']:
+            fields.append('k_%s%s_%s' % (pre, v['name'], f['name']))
+        nopanic.append('k_%s%s_nopanic' % (pre, v['name']))
+    return fields, nopanic
+
+
+PKT_FIELD_HARNESSES, PKT_NOPANIC_HARNESSES = _pkt_harness_names()
+
+
+def mirrors_for(unit, qual):
+    """Kani mirror harnesses of a Verus-verified function (used to arbitrate a
+    failed Verus obligation and to obtain a concrete counterexample)"""
+    if unit == 'pkt_views':
+        parts = qual.split('::')
+        pre = 'icmp4_' if parts[0] == 'icmpv4' else ('icmp6_' if parts[0] == 'icmpv6' else '')
+        if len(parts) >= 2:
+            view, meth = parts[-2], parts[-1]
+            if parts[-1] == 'split':
+                return ['k_split_contract']
+            if parts[-1] == 'ipv4_options_length':
+                return ['k_Ipv4Packet_nopanic']
+            if view.endswith('Iter'):
+                return ['k_ExtensionsPacket_nopanic'] if view.startswith('ExtensionObject') else ['k_MplsLabelStackPacket_nopanic']
+            if view == 'Buffer':
+                return ['k_buffer_get_bytes_2', 'k_UdpPacket_source', 'k_Ipv4Packet_version']
+            m = _re.match(r'(get|set)_(\w+)$', meth)
+            res = []
+            if m and ('k_%s%s_%s' % (pre, view, m.group(2))) in PKT_FIELD_HARNESSES:
+                res.append('k_%s%s_%s' % (pre, view, m.group(2)))
+            if ('k_%s%s_nopanic' % (pre, view)) in PKT_NOPANIC_HARNESSES and (not res or meth.startswith('get_')):
+                res.append('k_%s%s_nopanic' % (pre, view))
+            return res
+    return []
+
+
 PROPS = {
+    'C04': {
+        'level': 'proof',
+        'technique': 'Verus: every accessor of every packet view free of panics/overflow for any buffer >= minimum size; Kani no-panic harnesses',
+        'level_text': 'Layer (a): for every public accessor of every packet view Verus discharges every slice index, range, copy length and arithmetic-overflow obligation under the single precondition len >= minimum size (unbounded buffer length), and termination/progress of the two extension iterators. Layer (b) (receive path of trippy-core) is decided by Kani harnesses on the real functions.',
+        'level_note': 'Trusted: shims (from_be_bytes, to_be_bytes, address conversions), Buffer::get_bytes contract (Kani-discharged). Bounded stand-ins are labelled and not counted. platform/unix.rs socket code and ArrayVec capacity in dispatch_tcp_probe are outside.',
+        'units': ['pkt_views'],
+        'kani': {'quick': PKT_NOPANIC_HARNESSES},
+        'assumptions': ['setters additionally require a mutable view and (set_payload) a payload that fits: caller obligations, discharged at the call sites in unit core_net_build'],
+        'explanation': 'no-panic obligations of packet views',
+    },
+    'C14': {
+        'level': 'proof',
+        'technique': 'Verus contracts on extension_splitter::split, split_payload_extension (x4) and the two extension iterators against an RFC 4884/4950 spec; lemmas for disjointness and recovery',
+        'level_text': 'split() is proved equal to a spec function written from RFC 4884 (compliant length attribute / legacy 128-octet convention) for every length and payload; lemmas: datagram and extension are disjoint in-bounds sub-ranges, compliant and legacy messages are recovered unchanged; the four split_payload_extension functions scale the length attribute by 4 (ICMPv4) / 8 (ICMPv6) for the whole range 0..=255; ExtensionObjectIter::next / MplsLabelStackIter::next yield an item iff the object header and declared length fit (resp. until the S bit), advance by the declared length / 4 octets and make progress.',
+        'level_note': 'Trusted: shims as C12. Extensions::try_from (iterator adapters in trippy-core) is a bounded Kani stand-in.',
+        'units': ['pkt_views'],
+        'kani': {'quick': ['k_split_contract', 'k_ExtensionsPacket_nopanic', 'k_MplsLabelStackPacket_nopanic']},
+        'assumptions': [],
+        'explanation': 'ICMP extension parsing',
+    },
+    'C12': {
+        'level': 'proof',
+        'technique': 'Verus contracts on every packet-view accessor, generated from an RFC field table; Kani full-domain mirror per field',
+        'level_text': 'Every get_*/set_* of every packet view is proved (Verus, any buffer length >= minimum) to read / write exactly the RFC-positioned bits: getters equal the big-endian field value, setters satisfy a whole-buffer equation (value truncated to the field width, every other bit unchanged); constructors succeed iff len >= minimum size. Each field is additionally proved bit-precisely by a loop-free Kani harness over all contents of a minimum-size buffer and all values.',
+        'level_note': 'Trusted: RFC field table (specs/rfc_fields.py) as oracle; shims for from_be_bytes/to_be_bytes/Ipv{4,6}Addr conversions; Buffer::get_bytes contract (core::array::from_fn) - discharged by Kani harnesses k_buffer_get_bytes_{2,4,16}. TCP flags follow RFC 3540 (9-bit flags incl. NS), as the code documents.',
+        'units': ['pkt_views'],
+        'kani': {'quick': PKT_FIELD_HARNESSES + ['k_buffer_get_bytes_2', 'k_buffer_get_bytes_4', 'k_buffer_get_bytes_16']},
+        'assumptions': ['read-only views: `&self` accessors cannot write (Rust type system); every setter requires is_mut(), i.e. Buffer::write on an Immutable buffer is reachable only through a violated precondition (it panics, never writes)'],
+        'explanation': 'field accessors against the RFC field table',
+    },
     'C13': {
         'level': 'proof',
         'technique': 'Verus contracts on the real checksum functions (loop invariants, RFC 1071 spec function, fold/verify lemmas)',
